@@ -10,7 +10,7 @@ use serde_json::{json, Value};
 pub struct P;
 pub static C18: P = P;
 
-pub const WAYS: [&str; 14] = [
+pub const WAYS: [&str; 15] = [
     "class + user sheet .h{display:none}",
     "style=\"display:none\" (document CSS enabled)",
     "style=\"height:0;overflow:hidden\"",
@@ -25,6 +25,7 @@ pub const WAYS: [&str; 14] = [
     "class + descendant selector starting with a type: html .h{display:none}",
     "class + sheet T .h{display:none} with T the element's own tag (hidden exactly when an ancestor is a T)",
     "class + selector list #nomatch, .h, p.zz{display:none}",
+    "a class name using every identifier character: .h0123456789_-azAZ{display:none}",
 ];
 
 #[derive(Serialize, Deserialize)]
@@ -47,6 +48,7 @@ fn mark(d: &[N], p: &[usize], way: usize) -> String {
     if let N::E(_, attrs, _) = node_at_mut(&mut dm, p) {
         match way {
             0 | 4 | 5 | 6 | 8 | 9 | 10 | 11 | 12 | 13 => attrs.push(("class".into(), "h".into())),
+            14 => attrs.push(("class".into(), "h0123456789_-azAZ".into())),
             1 => attrs.push(("style".into(), "display:none".into())),
             2 => attrs.push(("style".into(), "height:0;overflow:hidden".into())),
             3 => attrs.push(("id".into(), "hh".into())),
@@ -89,6 +91,7 @@ fn cfg_for(way: usize, rich: bool, tag: &str) -> Cfg {
         10 => base.with(Opt::UserCss(".h:nth-child(99){display:none}".into())),
         11 => base.with(Opt::UserCss("html .h{display:none}".into())),
         13 => base.with(Opt::UserCss("#nomatch, .h, p.zz{display:none}".into())),
+        14 => base.with(Opt::UserCss(".h0123456789_-azAZ{display:none}".into())),
         12 => base.with(Opt::UserCss(format!("{tag} .h{{display:none}}"))),
         _ => base,
     }
@@ -190,7 +193,7 @@ impl Prop for P {
     fn build(&self, tier: Tier) -> Box<dyn Scope> {
         let docs = block_docs(tier.pick(2, 3), G { tables: true, pre: true, valid_only: true });
         let docs: Vec<Vec<N>> = if tier == Tier::Thorough { docs.into_iter().step_by(2).collect() } else { docs };
-        Box::new(S { docs, widths: tier.pick(vec![1, 2, 3, 4, 5, 6, 8, 10, 14, 20], (1..=24).chain([30, 40, 60, 100]).collect()), ways: tier.pick(vec![0, 1, 2, 3, 4, 8, 9, 11, 12, 13], vec![0, 1, 2, 3, 4, 5, 6, 7, 8, 9, 10, 11, 12, 13]) })
+        Box::new(S { docs, widths: tier.pick(vec![1, 2, 3, 4, 5, 6, 8, 10, 14, 20], (1..=24).chain([30, 40, 60, 100]).collect()), ways: tier.pick(vec![0, 1, 2, 3, 4, 8, 9, 11, 12, 13, 14], vec![0, 1, 2, 3, 4, 5, 6, 7, 8, 9, 10, 11, 12, 13, 14]) })
     }
     fn replay(&self, case: &Value, cx: &mut Cx) {
         let c: Case = serde_json::from_value(case.clone()).expect("C18 case");
